@@ -108,6 +108,7 @@ BUILD_FLAGS = {
     'asan': ['-O1', '-g', '-fno-omit-frame-pointer', '-fsanitize=address,undefined', '-fno-sanitize-recover=all'],
     'asan-recover': ['-O1', '-g', '-fno-omit-frame-pointer', '-fsanitize=address,undefined', '-fsanitize-recover=all'],
     'tsan': ['-O1', '-g', '-fsanitize=thread'],
+    'msan': ['-O1', '-g', '-fno-omit-frame-pointer', '-fsanitize=memory', '-fsanitize-memory-track-origins'],   # clang only
 }
 
 _built = {}
@@ -147,9 +148,13 @@ def build_translator(kind='plain', guard=False, defs=None, cc='gcc', tag=None):
 
 
 SAN_ENV = {
-    'ASAN_OPTIONS': 'detect_leaks=0:abort_on_error=0:exitcode=99:allocator_may_return_null=1:detect_stack_use_after_return=0',
+    'ASAN_OPTIONS': 'detect_leaks=0:abort_on_error=0:exitcode=99:allocator_may_return_null=1:detect_stack_use_after_return=0:malloc_fill_byte=165:max_malloc_fill_size=67108864',
     'UBSAN_OPTIONS': 'print_stacktrace=1:halt_on_error=1:exitcode=98',
     'TSAN_OPTIONS': 'halt_on_error=0:exitcode=97:second_deadlock_stack=1',
+    'MSAN_OPTIONS': 'exit_code=98',
+    # memory obtained from malloc has indeterminate contents: make that visible (glibc fills malloc'ed blocks with this byte, freed ones
+    # with its complement; ASan does the same through malloc_fill_byte), so that code relying on fresh pages being zero is exposed
+    'MALLOC_PERTURB_': '165',
 }
 
 
